@@ -13,6 +13,8 @@ CONSTANTS
   CompileMode = "stated"
   Inners <- InnersQuick
   ScopeMode = "norestore"
+  Doors <- DoorsApi
+  HookMode = "stated"
 INIT InitNested
 NEXT Next
 INVARIANTS KeepInv BalanceSheetInv IncomeInv EquityInv TxBalanceInv LayoutInv FilterInv CompileInv SortedInv ExpectInv ScopeInv
